@@ -3,11 +3,13 @@ package main
 // C18: histories of op/3 and current_op/3 against the operator table.
 
 import (
+	"bytes"
 	"fmt"
 	"math/rand"
 	"sort"
 	"strings"
 
+	"github.com/ichiban/prolog"
 	"github.com/ichiban/prolog/engine"
 )
 
@@ -16,7 +18,7 @@ func init() {
 }
 
 var c18Names = []string{"foo", "bar", "baz", "|", ",", "[]", "{}", "+", "-", "=", "mod"}
-var c18Pris = []int64{0, 0, 1, 200, 400, 700, 999, 1000, 1001, 1105, 1200, 1201, -1}
+var c18Pris = []int64{0, 0, 1, 200, 400, 700, 999, 1000, 1001, 1040, 1050, 1090, 1105, 1200, 1201, -1}
 var c18Specs = []string{"fx", "fy", "xf", "yf", "xfx", "xfy", "yfx"}
 
 func genC18Name(r *rand.Rand) engine.Term {
@@ -130,7 +132,17 @@ func genC18(r *rand.Rand, n int, tier string) []string {
 			case 0:
 				ops[j] = genC18Cur(r)
 			case 1:
-				ops[j] = "probe A" + encName(pick(r, []string{"foo", "bar", "baz", "mod"}))
+				if r.Intn(3) == 0 {
+					// terms around '|' and '->' written and read back under the table as it is now
+					ops[j] = "rt Ax"
+					if r.Intn(2) == 0 {
+						// ... right after '|' was given a priority of its own choice (1001..1200 are legal)
+						ops[j] = "op " + wireRaw(engine.Integer(pick(r, []int64{1001, 1040, 1049, 1050, 1051, 1090, 1099, 1100, 1150, 1200}))) + " " +
+							wireRaw(atom(pick(r, []string{"xfx", "xfy", "yfx"}))) + " " + wireRaw(atom("|")) + " ; rt Ax"
+					}
+				} else {
+					ops[j] = "probe A" + encName(pick(r, []string{"foo", "bar", "baz", "mod"}))
+				}
 			default:
 				ops[j] = genC18Op(r)
 			}
@@ -162,7 +174,7 @@ func runC18(payload string) string {
 		case "op":
 			ts, err := d.terms(f[1])
 			must(err)
-			r := solveOnce(&i.VM, compound("op", ts...))
+			r := solveOnce(&i.VM, c18OpGoal(ts, opText))
 			if r == "true" {
 				okOps++
 			} else {
@@ -187,7 +199,7 @@ func runC18(payload string) string {
 				rows = append(rows, wireRaw(compound("t", engine.Integer(row.P), atom(row.T), atom(row.N))))
 				if first {
 					first = false
-					opRes = solveOnce(&i.VM, compound("op", ts...))
+					opRes = solveOnce(&i.VM, c18OpGoal(ts, opText))
 					if opRes == "true" {
 						okOps++
 					} else {
@@ -207,6 +219,21 @@ func runC18(payload string) string {
 			} else {
 				res = append(res, "ans "+rows)
 			}
+		case "rt":
+			// what the writer produces under the CURRENT table, the reader must turn back into the same term
+			// (reader and writer consult one table: the one op/3 maintains)
+			a, b, c := atom("a"), atom("b"), atom("c")
+			var rs []string
+			for _, t := range []engine.Term{
+				compound("->", a, compound("|", b, c)), compound("|", compound("->", a, b), c),
+				compound("|", a, compound("|", b, c)), compound("|", compound("|", a, b), c),
+				compound(":-", a, compound("|", b, c)), compound("|", compound(",", a, b), c),
+				compound("f", compound("|", a, b)), engine.List(compound("|", a, b)),
+				compound("foo", a, compound("|", b, c)), compound("|", compound("bar", a), c),
+			} {
+				rs = append(rs, c18RoundTrip(i, t))
+			}
+			res = append(res, "rt "+strings.Join(rs, " "))
 		case "probe":
 			// does the reader / the writer use the table?  name is an alphanumeric atom.
 			ts, err := d.terms(f[1])
@@ -231,4 +258,55 @@ func runC18(payload string) string {
 		nt = 1
 	}
 	return strings.Join(res, " ; ") + fmt.Sprintf(" ### nt=%d ok_ops=%d err_ops=%d", nt, okOps, errOps)
+}
+
+// c18OpGoal: op(P, S, Names) — in half of the cases (drawn from the text of the operation) the atoms of a
+// list of names are reached through variables bound by earlier goals of the same conjunction.
+func c18OpGoal(ts []engine.Term, opText string) engine.Term {
+	goal := compound("op", ts...)
+	h := 0
+	for _, c := range []byte(opText) {
+		h = (h*31 + int(c)) % 1000003
+	}
+	if h%2 == 0 {
+		return goal
+	}
+	var elems []engine.Term
+	it := engine.ListIterator{List: ts[2]}
+	for it.Next() {
+		elems = append(elems, it.Current())
+	}
+	if it.Err() != nil || len(elems) == 0 {
+		return goal
+	}
+	var binds []engine.Term
+	for k, e := range elems {
+		if _, ok := e.(engine.Atom); ok && (h>>uint(k+1))%2 == 0 {
+			v := engine.NewVariable()
+			binds = append(binds, compound("=", v, e))
+			elems[k] = v
+		}
+	}
+	goal = compound("op", ts[0], ts[1], engine.List(elems...))
+	for k := len(binds) - 1; k >= 0; k-- {
+		goal = compound(",", binds[k], goal)
+	}
+	return goal
+}
+
+func c18RoundTrip(i *prolog.Interpreter, t engine.Term) string {
+	var buf bytes.Buffer
+	i.SetUserOutput(engine.NewOutputTextStream(&buf))
+	if r := solveOnce(&i.VM, compound("writeq", t)); r != "true" {
+		return "writeerr"
+	}
+	text := buf.String()
+	back, err := engine.NewParser(&i.VM, strings.NewReader(text+" .")).Term()
+	if err != nil {
+		return "synerr(" + encName(text) + ")"
+	}
+	if solveOnce(&i.VM, compound("==", t, back)) != "true" {
+		return "differ(" + encName(text) + ")"
+	}
+	return "same"
 }
